@@ -210,11 +210,14 @@ func (f *RegistrarPP) PostProcessComponentFactory(factory container.Factory) err
 type CatalogFactoryPP struct {
 	Seen  int
 	Names string
+	Defs  int
 }
 
 func (f *CatalogFactoryPP) Naming() string { return "verif.catalog" }
 func (f *CatalogFactoryPP) LazyInit()      {}
 func (f *CatalogFactoryPP) PostProcessComponentFactory(factory container.Factory) error {
+	// (a catalogue also looks at the definitions known so far - usually none yet: the definition scan runs later)
+	f.Defs = len(factory.GetDefinitionRegistry().GetMetas())
 	comps := factory.GetRegisteredComponents()
 	names := make([]string, 0, len(comps))
 	for n := range comps {
@@ -326,5 +329,24 @@ func (p *RunningPP) Order() int     { return p.Ord }
 func (p *RunningPP) Bind(r *Run)    { p.Log = r.Log }
 func (p *RunningPP) Run() error {
 	p.Log.Add("run", p.Nm)
+	return nil
+}
+
+// TopRunner is a self-contained ordered runner (its events go to its own log) for applications that are
+// assembled by hand: app.NewApp().Run(SetRegistry(...), SetComponents(...)).
+type TopRunner struct {
+	Nm   string
+	Ord  int
+	Log  *mon.Lifecycle
+	Fail bool
+}
+
+func (t *TopRunner) Naming() string { return t.Nm }
+func (t *TopRunner) Order() int     { return t.Ord }
+func (t *TopRunner) Run() error {
+	t.Log.Add("run", t.Nm)
+	if t.Fail {
+		return errors.New("injected fault: run of " + t.Nm)
+	}
 	return nil
 }
